@@ -81,14 +81,16 @@ fn sumc_check(n: usize, lens: [usize; MAXN]) {
     }
 }
 
-// The lengths are enumerated CONCRETELY (symbolic Vec lengths made CBMC time out at 120 s), the element
-// values are symbolic.  n = 3 is split by the length of the first commitment to stay inside the quick tier.
-macro_rules! sumc_n3_l0 {
-    ($l0:expr) => {{
+// The lengths are enumerated CONCRETELY (with symbolic Vec lengths CBMC did not finish in 120 s even for two
+// commitments); the element values are symbolic.  Cost is ~5 s of CBMC per shape, so the shapes are spread
+// over several harnesses: quick tier = all shapes with n <= 2 and len <= 3, and n == 3 with len <= 2;
+// thorough tier adds n == 3 with len <= 3.
+macro_rules! sumc_n3_shapes {
+    ($l0:expr, $maxl:expr) => {{
         let mut l1 = 0;
-        while l1 <= MAXL {
+        while l1 <= $maxl {
             let mut l2 = 0;
-            while l2 <= MAXL {
+            while l2 <= $maxl {
                 sumc_check(3, [$l0, l1, l2]);
                 l2 += 1;
             }
@@ -97,44 +99,74 @@ macro_rules! sumc_n3_l0 {
     }};
 }
 
-// @harness name=sumc_n3_l0_0 props=C07 kind=bounded bound="3 commitments, first of length 0, others of every length <= 3 (16 shapes), all element values" tier=quick backs="sum_commitments.ensures (assumed in V): index-wise sum; Err(IncorrectNumberOfCommitments) iff a later commitment is shorter than the first; longer later commitments are truncated" expect=pass
+// @harness name=sumc_n3_len2_l0_0 props=C07 kind=bounded bound="3 commitments, first of length 0, the other two of every length <= 2 (9 shapes), all element values" tier=quick backs="sum_commitments.ensures (assumed in V): index-wise sum; Err(IncorrectNumberOfCommitments) iff empty list or a later commitment shorter than the first; longer later commitments are truncated" expect=pass
 #[kani::proof]
 #[kani::unwind(6)]
-fn sumc_n3_l0_0() {
-    sumc_n3_l0!(0);
+fn sumc_n3_len2_l0_0() {
+    sumc_n3_shapes!(0, 2);
 }
-// @harness name=sumc_n3_l0_1 props=C07 kind=bounded bound="3 commitments, first of length 1, others of every length <= 3 (16 shapes), all element values" tier=quick backs="sum_commitments.ensures, as sumc_n3_l0_0" expect=pass
+// @harness name=sumc_n3_len2_l0_1 props=C07 kind=bounded bound="3 commitments, first of length 1, the other two of every length <= 2 (9 shapes), all element values" tier=quick backs="sum_commitments.ensures, as sumc_n3_len2_l0_0" expect=pass
 #[kani::proof]
 #[kani::unwind(6)]
-fn sumc_n3_l0_1() {
-    sumc_n3_l0!(1);
+fn sumc_n3_len2_l0_1() {
+    sumc_n3_shapes!(1, 2);
 }
-// @harness name=sumc_n3_l0_2 props=C07 kind=bounded bound="3 commitments, first of length 2, others of every length <= 3 (16 shapes), all element values" tier=quick backs="sum_commitments.ensures, as sumc_n3_l0_0" expect=pass
+// @harness name=sumc_n3_len2_l0_2 props=C07 kind=bounded bound="3 commitments, first of length 2, the other two of every length <= 2 (9 shapes), all element values" tier=quick backs="sum_commitments.ensures, as sumc_n3_len2_l0_0" expect=pass
 #[kani::proof]
 #[kani::unwind(6)]
-fn sumc_n3_l0_2() {
-    sumc_n3_l0!(2);
-}
-// @harness name=sumc_n3_l0_3 props=C07 kind=bounded bound="3 commitments, first of length 3, others of every length <= 3 (16 shapes), all element values" tier=quick backs="sum_commitments.ensures, as sumc_n3_l0_0" expect=pass
-#[kani::proof]
-#[kani::unwind(6)]
-fn sumc_n3_l0_3() {
-    sumc_n3_l0!(3);
+fn sumc_n3_len2_l0_2() {
+    sumc_n3_shapes!(2, 2);
 }
 
-// @harness name=sumc_n2 props=C07 kind=bounded bound="2 commitments, each of every length <= 3 (16 shapes), all element values" tier=quick backs="sum_commitments.ensures, as sumc_n3_l0_0" expect=pass
+// @harness name=sumc_n3_len3_l0_0 props=C07 kind=bounded bound="3 commitments, first of length 0, the other two of every length <= 3 (16 shapes), all element values" tier=thorough backs="sum_commitments.ensures, as sumc_n3_len2_l0_0" expect=pass
 #[kani::proof]
 #[kani::unwind(6)]
-fn sumc_n2() {
-    let mut l0 = 0;
-    while l0 <= MAXL {
-        let mut l1 = 0;
-        while l1 <= MAXL {
-            sumc_check(2, [l0, l1, 0]);
-            l1 += 1;
+fn sumc_n3_len3_l0_0() {
+    sumc_n3_shapes!(0, 3);
+}
+// @harness name=sumc_n3_len3_l0_1 props=C07 kind=bounded bound="3 commitments, first of length 1, the other two of every length <= 3 (16 shapes), all element values" tier=thorough backs="sum_commitments.ensures, as sumc_n3_len2_l0_0" expect=pass
+#[kani::proof]
+#[kani::unwind(6)]
+fn sumc_n3_len3_l0_1() {
+    sumc_n3_shapes!(1, 3);
+}
+// @harness name=sumc_n3_len3_l0_2 props=C07 kind=bounded bound="3 commitments, first of length 2, the other two of every length <= 3 (16 shapes), all element values" tier=thorough backs="sum_commitments.ensures, as sumc_n3_len2_l0_0" expect=pass
+#[kani::proof]
+#[kani::unwind(6)]
+fn sumc_n3_len3_l0_2() {
+    sumc_n3_shapes!(2, 3);
+}
+// @harness name=sumc_n3_len3_l0_3 props=C07 kind=bounded bound="3 commitments, first of length 3, the other two of every length <= 3 (16 shapes), all element values" tier=thorough backs="sum_commitments.ensures, as sumc_n3_len2_l0_0" expect=pass
+#[kani::proof]
+#[kani::unwind(6)]
+fn sumc_n3_len3_l0_3() {
+    sumc_n3_shapes!(3, 3);
+}
+
+macro_rules! sumc_n2_shapes {
+    ($l0a:expr, $l0b:expr) => {{
+        let mut l0 = $l0a;
+        while l0 <= $l0b {
+            let mut l1 = 0;
+            while l1 <= MAXL {
+                sumc_check(2, [l0, l1, 0]);
+                l1 += 1;
+            }
+            l0 += 1;
         }
-        l0 += 1;
-    }
+    }};
+}
+// @harness name=sumc_n2_a props=C07 kind=bounded bound="2 commitments, first of length 0..1, second of every length <= 3 (8 shapes), all element values" tier=quick backs="sum_commitments.ensures, as sumc_n3_len2_l0_0" expect=pass
+#[kani::proof]
+#[kani::unwind(6)]
+fn sumc_n2_a() {
+    sumc_n2_shapes!(0, 1);
+}
+// @harness name=sumc_n2_b props=C07 kind=bounded bound="2 commitments, first of length 2..3, second of every length <= 3 (8 shapes), all element values" tier=quick backs="sum_commitments.ensures, as sumc_n3_len2_l0_0" expect=pass
+#[kani::proof]
+#[kani::unwind(6)]
+fn sumc_n2_b() {
+    sumc_n2_shapes!(2, 3);
 }
 
 // @harness name=sumc_n01 props=C07 kind=bounded bound="0 or 1 commitments of every length <= 3, all element values" tier=quick backs="sum_commitments.ensures: empty list -> Err(IncorrectNumberOfCommitments); single commitment -> itself" expect=pass
@@ -229,19 +261,3 @@ fn coeffs_negctl_same_segment() {
     assert!(out[1] == toy251_scalar_of(bytes[0], bytes[1]), "negctl");
 }
 
-// @harness name=sumc_probe4 props=CXX kind=bounded bound="probe" tier=thorough backs="probe" expect=pass
-#[kani::proof]
-#[kani::unwind(6)]
-fn sumc_probe4() {
-    let mut l2 = 0;
-    while l2 <= MAXL {
-        sumc_check(3, [3, 3, l2]);
-        l2 += 1;
-    }
-}
-// @harness name=sumc_probe1 props=CXX kind=bounded bound="probe" tier=thorough backs="probe" expect=pass
-#[kani::proof]
-#[kani::unwind(6)]
-fn sumc_probe1() {
-    sumc_check(3, [3, 3, 3]);
-}
